@@ -9,6 +9,7 @@ Record ixdump := {
 
 Inductive case03 :=
 | KIndex (c : ecase) (d : ixdump)
+| KBig (c : ecase) (d : ixdump)     (* a database of real size: the index dump and one search only (the paired runs are left to the small cases) *)
 | KHistory (steps : list (list eres * list eres * list bytes * list bytes)).   (* got, fresh, commands held, commands expected *)
 
 Definition tf_eqb (a : tf4) (b : Z * Z * Z * Z) : bool :=
@@ -46,6 +47,14 @@ Definition check_case (c : case03) : report :=
                | None => VMismatch "missing-run" end in
       {| r_verdict := v; r_trivial := match extra e "nlp_off_big" with Some (_ :: _) => false | _ => true end;
          r_tags := ["index"] |}
+  | KBig e d =>
+      let o := with_opts (k_opts e) (Some (big e)) (Some false) (Some false) false in
+      let v := match extra e "nlp_off_big" with
+               | Some obs => if negb (results_eqb (model e o) obs) then VPredFail "index_eq_scan"
+                             else match index_matches e d with Some w => VMismatch ("index/" ++ w) | None => VOk end
+               | None => VMismatch "missing-run" end in
+      {| r_verdict := v; r_trivial := match extra e "nlp_off_big" with Some (_ :: _) => false | _ => true end;
+         r_tags := ["index"; "big_database"] |}
   | KHistory steps =>
       let bad_stale := existsb (fun s => let '(got, fresh, held, expect) := s in negb (results_eqb got fresh)) steps in
       let bad_cmds := existsb (fun s => let '(got, fresh, held, expect) := s in negb (list_eqb bytes_eqb held expect)) steps in
